@@ -4,6 +4,7 @@ import (
 	"fmt"
 
 	"github.com/DistCompiler/pgo/distsys"
+	"github.com/DistCompiler/pgo/distsys/resources"
 	"github.com/DistCompiler/pgo/distsys/tla"
 	"github.com/DistCompiler/pgo/systems/shopcart"
 
@@ -218,5 +219,56 @@ func aworsetMacro(null tla.Value) steplib.Macro {
 			a.SetVar(v)
 			return nil
 		},
+	}
+}
+
+// Shadow of the shopnode system on the DEPLOYMENT's CRDT type: next to the spec-state crdt (the AWORSet mapping macro) one real
+// resources.AWORSet value per node receives the same committed commands (Write with the node's id) and the same merges; after
+// every step "shadow" = [node |-> Read()] is added to the observed state, for lib/c16_shopnode.py to compare with Query(crdt[node]).
+func init() {
+	stepHooks["shopnode"] = func(cfg map[string]int, sys *steplib.System) func(*steplib.Obs) {
+		n := cfg["NumNodes"]
+		num := func(i int) tla.Value { return tla.MakeNumber(int32(i)) }
+		shadow := make([]resources.CRDTValue, n+1)
+		for i := range shadow {
+			shadow[i] = resources.AWORSet{}.Init()
+		}
+		prevIn := sys.State.Get("in")
+		toInt := func(x interface{}) int {
+			switch v := x.(type) {
+			case int:
+				return v
+			case int32:
+				return int(v)
+			case float64:
+				return int(v)
+			}
+			return -1
+		}
+		return func(ob *steplib.Obs) {
+			if ob.Outcome == "commit" {
+				if ob.Label == "ANode.nodeLoop" {
+					var p int
+					fmt.Sscanf(ob.Proc, "n%d", &p)
+					if p >= 1 && p <= n && prevIn.AsTuple().Len() > 0 {
+						shadow[p] = shadow[p].Write(num(p), prevIn.AsTuple().Get(0))
+					}
+				} else if ob.Proc == "merge" && len(ob.Picks) == 2 {
+					i1, i2 := toInt(ob.Picks[0]), toInt(ob.Picks[1])
+					if i1 >= 1 && i1 <= n && i2 >= 1 && i2 <= n {
+						m := shadow[i1].Merge(shadow[i2])
+						shadow[i1], shadow[i2] = m, m
+					}
+				}
+			}
+			prevIn = sys.State.Get("in")
+			var kv []tla.Value
+			for i := 1; i <= n; i++ {
+				kv = append(kv, num(i), shadow[i].Read())
+			}
+			if ob.State != nil {
+				ob.State["shadow"] = steplib.Enc(steplib.Fn(kv...))
+			}
+		}
 	}
 }
